@@ -21,12 +21,17 @@ def bed_invariants(b, n_expected=None):
     return And(*parts)
 
 
+def _spec_bin(start, end):
+    from .c16_bins import spec_bin
+    return spec_bin(start, end, 0)
+
+
 def decoded_blocks(b):
     return [(b.start + s, b.start + s + z) for s, z in zip(list(b.block_starts), list(b.block_sizes))]
 
 
 class FeatureBed(Case):
-    props = ("C14",)
+    props = ("C14", "C16")
     func = FEATURE + ".to_bed12"
 
     def __init__(self, n, chunk):
@@ -42,6 +47,8 @@ class FeatureBed(Case):
             "bounds": lambda i, r: And(r.start == i.expected[0][0], r.end == i.expected[-1][1]),
             "strand-name-chrom": lambda i, r: And(_same_enum(r.strand, i.strand), r.name == "feat1", r.chrom == "chr1"),
             "thick-zero-for-features": lambda i, r: And(r.thick_start == 0, r.thick_end == 0),
+            # C16: the bin stored at construction is the UCSC bin of the CHROMOSOME span (also on a chunk parent)
+            "stored-bin-is-bin-of-chromosome-span": lambda i, r: i.f.bin == _spec_bin(i.span[0], i.span[1]),
         }
 
     def inputs(self, S):
@@ -57,7 +64,7 @@ class FeatureBed(Case):
             expected = list(zip(starts, ends))
         f = S.new(FEATURE, starts, ends, strand, sequence_name="chr1", feature_name="feat1",
                   parent_or_seq_chunk_parent=cp)
-        return NS(f=f, strand=strand, expected=expected)
+        return NS(f=f, strand=strand, expected=expected, span=(starts[0], ends[-1]))
 
     def samples(self, rng):
         d = sample_blocks(rng, "f", self.n, lo=2)
@@ -79,7 +86,7 @@ def _same_enum(a, b):
 
 
 class TranscriptBed(Case):
-    props = ("C14",)
+    props = ("C14", "C16")
     func = TRANSCRIPT + ".to_bed12"
 
     def __init__(self, n, chunk, coding):
@@ -98,6 +105,7 @@ class TranscriptBed(Case):
             "thick-inside-record": lambda i, r: Or(And(r.thick_start == 0, r.thick_end == 0),
                                                    And(r.start <= r.thick_start, r.thick_start <= r.thick_end,
                                                        r.thick_end <= r.end)),
+            "stored-bin-is-bin-of-chromosome-span": lambda i, r: i.tx.bin == _spec_bin(i.span[0], i.span[1]),
         }
 
     def inputs(self, S):
@@ -119,7 +127,7 @@ class TranscriptBed(Case):
             kw.update(cds_starts=cds_s, cds_ends=cds_e, cds_frames=[zero] * self.n)
             thick = (c0 - off, c1 - off)
         tx = S.new(TRANSCRIPT, starts, ends, strand, **kw)
-        return NS(tx=tx, strand=strand, expected=expected, thick=thick)
+        return NS(tx=tx, strand=strand, expected=expected, thick=thick, span=(starts[0], ends[-1]))
 
     def samples(self, rng):
         d = sample_blocks(rng, "tx", self.n, lo=2)
